@@ -122,7 +122,8 @@ def run(ctx):
         o = obs[k]
         if o["st"] in ("generr", "timeout", "noconn", "rejected"):
             continue
-        dims = wc.dims_of(x, {"kind": r["kind"], "rflags": "+".join(r["flags"]) or "-"})
+        dims = wc.dims_of(x, {"kind": r["kind"], "rtracing": int("TRACING" in r["flags"]), "rpayload": int("PAYLOAD" in r["flags"]),
+                                 "rwarning": int("WARNING" in r["flags"]), "rcompressed": int(bool(r["compressed"]))})
         bad = classify(x, o)
         qk = (q["maxv"], q["ver"], q["op"], q["sel"], tuple(q["flags"]), q["comp"], q["compressed"])
         rk = (r["ver"], r["comp"], r["compressed"], r["for"], r["kind"], tuple(r["flags"]))
@@ -143,7 +144,7 @@ def run(ctx):
         for what, text in bad:
             failures[what].append((dims, text, {"maxv": q["maxv"], "request": x, "observed": o}))
     primary = ["op", "ver"]
-    minor = ["sel", "tracing", "payload", "beta", "compressed", "comp", "kind", "rflags"]
+    minor = ["sel", "tracing", "payload", "beta", "compressed", "comp", "kind", "rtracing", "rpayload", "rwarning", "rcompressed"]
     keys = wc.report(ctx, "c03", failures, passing, primary, minor, DESCRIBE)
 
     infra = wc.infra_failures(obs)
